@@ -28,9 +28,11 @@ def ws(r):
 
 
 def nl(r, p=DEFAULT):
+    # now and then a line ends in trailing blanks (they sit between the last token and the zero-width end-of-line mark)
+    tail = r.choice(['  ', '\t', ' ']) if r.random() < 0.08 else ''
     if not p.crlf:
-        return '\n'
-    return r.choice(['\n', '\n', '\n', '\n', '\r\n', '\r\r\n' if p.hostile else '\r\n'])
+        return tail + '\n'
+    return tail + r.choice(['\n', '\n', '\n', '\n', '\r\n', '\r\r\n' if p.hostile else '\r\n'])
 
 
 def s(r, p=DEFAULT):
